@@ -243,6 +243,16 @@ def rule_c(ctx: Context, R: Reporter, wrapper: FuncInfo):
             msg=f"{wrapper.short}: paths evaluate the user function {sorted(counts)} times (a probing/duplicate call changes the number of evaluations and, for stateful pools, the stream)",
             witness={"path": worst, "paths": len(paths)}, key="one-dispatch-per-path")
     R.analysed["C13.c:wrapper_paths"] = len(paths)
+    # (1b) who may evaluate the user likelihood: only the wrapper (an evaluation elsewhere -- a shape probe,
+    # a warm-up call -- is never counted and is not subject to the dispatch rules)
+    for fi2 in ctx.prog.functions.values():
+        if fi2 is wrapper:
+            continue
+        for c in calls_in(fi2.node):
+            if _is_user_like_ref(c.func) or any(_is_user_like_ref(a) for a in c.args):
+                R.check("C13.c", "the configured user likelihood is evaluated only inside the likelihood wrapper", False, fi2, c,
+                        msg=f"{fi2.short}: `{unparse(c)[:60]}` evaluates the user's likelihood outside {wrapper.short}: these evaluations are not added to the call counter "
+                            f"(and by-pass the vectorise / pool dispatch)", key=f"user-likelihood-outside-wrapper:{fi2.short}")
     # (2) call sites of the wrapper (through attributes wired to it) and their accounting
     n_sites = 0
     for fi in ctx.prog.functions.values():
@@ -447,12 +457,73 @@ def _rows_of_name(ctx: Context, fi: FuncInfo, name: ast.Name, nd) -> Optional[st
     return out.pop() if len(out) == 1 else None
 
 
+def rule_e(ctx: Context, R: Reporter):
+    """C13.e  objects shipped to pool workers survive pickling unchanged: for every
+    class with a custom `__setstate__` (or `__getstate__`), every key the
+    restoring method reads from the state mapping is an attribute the class
+    assigns (constructor or `__getstate__` output), and every attribute assigned in
+    the constructor is restored.  A misspelt key silently drops the user's
+    likelihood arguments on the worker side only."""
+    n = 0
+    for cls in ctx.prog.classes.values():
+        ss = cls.methods.get("__setstate__")
+        gs = cls.methods.get("__getstate__")
+        if ss is None:
+            continue
+        n += 1
+        init = cls.methods.get("__init__")
+        attrs = set()
+        for m in ([init] if init else []):
+            for x in walk_no_nested(m.node):
+                if isinstance(x, ast.Assign):
+                    for t in x.targets:
+                        if isinstance(t, ast.Attribute) and isinstance(t.value, ast.Name) and t.value.id == "self":
+                            attrs.add(t.attr)
+        sp = [p for p in ss.params if p != "self"]
+        if not sp:
+            continue
+        st = sp[0]
+        read = set()
+        whole = False
+        for x in walk_no_nested(ss.node):
+            if isinstance(x, ast.Subscript) and isinstance(x.value, ast.Name) and x.value.id == st and isinstance(x.slice, ast.Constant) and isinstance(x.slice.value, str):
+                read.add(x.slice.value)
+            if isinstance(x, ast.Call) and isinstance(x.func, ast.Attribute) and x.func.attr in ("get", "pop") and isinstance(x.func.value, ast.Name) and x.func.value.id == st \
+                    and x.args and isinstance(x.args[0], ast.Constant) and isinstance(x.args[0].value, str):
+                read.add(x.args[0].value)
+            if isinstance(x, ast.Call) and isinstance(x.func, ast.Attribute) and x.func.attr == "update" and "__dict__" in norm_text(x.func.value) and x.args and isinstance(x.args[0], ast.Name) and x.args[0].id == st:
+                whole = True
+        produced = set(attrs)
+        if gs is not None:
+            for x in walk_no_nested(gs.node):
+                if isinstance(x, ast.Dict):
+                    produced |= {k.value for k in x.keys if isinstance(k, ast.Constant) and isinstance(k.value, str)}
+        unknown = sorted(read - produced)
+        R.check("C13.e", f"{cls.name}.__setstate__ reads only keys that exist in the pickled state", not unknown, ss, ss.node,
+                msg=f"{ss.short}: reads state key(s) {unknown} that no constructor attribute / __getstate__ entry provides (attributes: {sorted(produced)}): the value is silently "
+                    f"replaced by the fallback in every unpickled copy (pool workers), not in the parent process", key=f"setstate-keys:{cls.name}")
+        if not whole and gs is None:
+            restored = set()
+            for x in walk_no_nested(ss.node):
+                if isinstance(x, ast.Assign):
+                    for t in x.targets:
+                        if isinstance(t, ast.Attribute) and isinstance(t.value, ast.Name) and t.value.id == "self":
+                            restored.add(t.attr)
+            missing = sorted(attrs - restored)
+            R.check("C13.e", f"{cls.name}.__setstate__ restores every constructor attribute", not missing, ss, ss.node,
+                    msg=f"{ss.short}: does not restore {missing}", key=f"setstate-restores:{cls.name}")
+    R.analysed["C13.e:classes_with_setstate"] = n
+    if n == 0:
+        R.check("C13.e", "no class customises unpickling (default pickling keeps every attribute)", True, None, None, key="setstate-none", loc="tempest/")
+
+
 def run(ctx: Context, R: Reporter):
     w = wrapper_fn(ctx)
     d = dispatcher_fn(ctx, w)
     R.guard(rule_a, ctx, R, w, d)
     R.guard(rule_b, ctx, R, d)
     R.guard(rule_c, ctx, R, w)
+    R.guard(rule_e, ctx, R)
 
 
 def variants():
